@@ -234,8 +234,25 @@ func (e *GenEnv) GenScenario(t *rapid.T, maxSets, maxRecs int) Scenario {
 		// sometimes an older, different definition of the pre-announced templates was announced before
 		if rapid.IntRange(0, 3).Draw(t, "superseded") == 0 {
 			var old []Template
-			for _, tp := range pre {
-				old = append(old, e.GenTemplate(t, tp.ID))
+			for i := range pre {
+				if rapid.Bool().Draw(t, "oldotherlen") {
+					o := RedefineOtherLengths(t, &pre[i])
+					if e.Proto == "nf9" {
+						for k := range o.Fields {
+							if o.Fields[k].Len == VarLen {
+								o.Fields[k].Len = 2
+							}
+						}
+						for k := range o.Scope {
+							if o.Scope[k].Len == VarLen {
+								o.Scope[k].Len = 2
+							}
+						}
+					}
+					old = append(old, o)
+				} else {
+					old = append(old, e.GenTemplate(t, pre[i].ID))
+				}
 			}
 			var m0 Msg
 			e.GenHeader(t, &m0)
@@ -308,4 +325,46 @@ func ExactIP(h Hex) net.IP {
 	out := make([]byte, len(h))
 	copy(out, h)
 	return net.IP(out[:len(h):len(h)])
+}
+
+// RedefineOtherLengths keeps the elements (ids, enterprise numbers, order) and changes only field lengths:
+// a cache that compares announcements by element only would take it for a refresh.
+func RedefineOtherLengths(t *rapid.T, cur *Template) Template {
+	tp := Template{ID: cur.ID, Options: cur.Options}
+	chg := func(fs []Field) []Field {
+		var out []Field
+		for _, f := range fs {
+			nf := f
+			nat := NaturalSize(f.Type)
+			switch {
+			case f.Len == VarLen:
+				nf.Len = uint16(rapid.IntRange(1, 12).Draw(t, "fixlen"))
+			case nat == 0:
+				nf.Len = uint16(rapid.IntRange(0, 24).Draw(t, "otherlen"))
+				if IsVarType(f.Type) && rapid.IntRange(0, 3).Draw(t, "tovar") == 0 {
+					nf.Len = VarLen
+				}
+			case int(f.Len) == nat:
+				nf.Len = uint16(rapid.IntRange(0, nat-1).Draw(t, "reducedlen"))
+			default:
+				nf.Len = uint16(nat)
+			}
+			out = append(out, nf)
+		}
+		return out
+	}
+	tp.Scope = chg(cur.Scope)
+	tp.Fields = chg(cur.Fields)
+	if tp.MinRecordLen() == 0 {
+		fs := tp.Fields
+		if len(tp.Scope) > 0 {
+			fs = tp.Scope
+		}
+		n := NaturalSize(fs[0].Type)
+		if n == 0 {
+			n = 1
+		}
+		fs[0].Len = uint16(n)
+	}
+	return tp
 }
